@@ -12,7 +12,7 @@ import (
 
 func (c *Ctx) c19Histories(g *Gen) {
 	s := c.suite("builder-histories", "oracle",
-		"messages assembled through the builder API only: 12..120 calls per history (thorough: up to 400) over {BuildSecurityAssociation, BuildProposal on any SA built so far, BuildTransform on any of the five lists of any proposal built so far (six argument shapes), BuildTrafficSelectorInitiator/Responder, BuildIndividualTrafficSelector on any TS payload built so far, BuildConfiguration, BuildConfigurationAttribute on any CP payload built so far, BuildNonce, BuildNotification, BUildKeyExchange, Reset() of transform / selector / configuration-attribute lists whose former slice value stays referenced and must keep showing its elements, BuildIdentificationInitiator, BuildCertificate, BuildNotify5G_QOS_INFO, BuildNotifyNAS_TCP_PORT}; after EVERY call the rendering of the whole container must equal the expectation kept by the oracle (= previous expectation with exactly the specified element appended at the specified place), and at the end the container must encode and decode to it when it lies in the encodable domain; one evaluation = one call; non-trivial = call number >= 2; distinct by (history, call)")
+		"messages assembled through the builder API only (octet-string arguments are now and then views into the data of payloads built earlier in the same history; in every third history most transforms go to one list of one proposal): 12..120 calls per history (thorough: up to 400) over {BuildSecurityAssociation, BuildProposal on any SA built so far, BuildTransform on any of the five lists of any proposal built so far (six argument shapes), BuildTrafficSelectorInitiator/Responder, BuildIndividualTrafficSelector on any TS payload built so far, BuildConfiguration, BuildConfigurationAttribute on any CP payload built so far, BuildNonce, BuildNotification, BUildKeyExchange, Reset() of transform / selector / configuration-attribute lists whose former slice value stays referenced and must keep showing its elements, BuildIdentificationInitiator, BuildCertificate, BuildNotify5G_QOS_INFO, BuildNotifyNAS_TCP_PORT}; after EVERY call the rendering of the whole container must equal the expectation kept by the oracle (= previous expectation with exactly the specified element appended at the specified place), and at the end the container must encode and decode to it when it lies in the encodable domain; one evaluation = one call; non-trivial = call number >= 2; distinct by (history, call)")
 	nh := c.n(60, 1500)
 	for h := 0; h < nh; h++ {
 		steps := 12 + g.r.Intn(109)
@@ -50,9 +50,30 @@ func (c *Ctx) c19Histories(g *Gen) {
 			what   string
 		}
 		var keptLists []keptList
+		// octet strings of payloads built earlier in this history: an application may pass a piece of one (a view with
+		// the spare capacity that follows it in the earlier payload's memory) as an argument of a later call
+		var earlier [][]byte
+		arg := func(fresh []byte) []byte {
+			if len(fresh) > 0 && len(earlier) > 0 && g.chance(0.3) {
+				e := earlier[g.r.Intn(len(earlier))]
+				if len(e) >= len(fresh) {
+					off := g.r.Intn(len(e) - len(fresh) + 1)
+					if g.chance(0.6) {
+						off = 0
+					}
+					return e[off : off+len(fresh)] // same length as the fresh value would have had; capacity runs on into e
+				}
+			}
+			return fresh
+		}
+		// focus: in every third history most transforms go to ONE list of ONE proposal (long lists next to short siblings)
+		focus, focusList := h%3 == 0, g.r.Intn(5)
 		for st := 0; st < steps; st++ {
 			var what string
 			x := g.r.Intn(100)
+			if focus && len(props) > 0 && x >= 16 && x < 62 {
+				x = 16 // BuildTransform
+			}
 			switch {
 			case x >= 60 && x < 64 && len(props) > 0 && st > 4:
 				r := props[g.r.Intn(len(props))]
@@ -101,6 +122,9 @@ func (c *Ctx) c19Histories(g *Gen) {
 			case x < 62 && len(props) > 0:
 				r := props[g.r.Intn(len(props))]
 				li := g.r.Intn(5)
+				if focus && g.chance(0.8) {
+					r, li = props[0], focusList
+				}
 				lists := []*message.TransformContainer{&r.p.EncryptionAlgorithm, &r.p.PseudorandomFunction, &r.p.IntegrityAlgorithm, &r.p.DiffieHellmanGroup, &r.p.ExtendedSequenceNumbers}
 				tt, id := uint8(li+1), uint16(g.u16())
 				at, av := uint16(g.u15()), uint16(g.u16())
@@ -160,19 +184,24 @@ func (c *Ctx) c19Histories(g *Gen) {
 				r.sx.List[2].List = append(r.sx.List[2].List, L(A("A"), N(uint64(at)), X(v)))
 				what = "BuildConfigurationAttribute"
 			case x < 89:
-				v := g.bytes(1 + g.r.Intn(40))
+				v := arg(g.bytes(1 + g.r.Intn(40)))
 				cont.BuildNonce(v)
-				exp.List = append(exp.List, L(A("NONCE"), X(v)))
+				exp.List = append(exp.List, L(A("NONCE"), X(append([]byte{}, v...))))
+				earlier = append(earlier, cont[len(cont)-1].(*message.Nonce).NonceData)
 				what = "BuildNonce"
 			case x < 92:
-				pr, ty, spi, d := uint8(g.u8()), uint16(g.u16()), g.bytes(g.pick(0, 0, 4, 8)), g.bytes(g.r.Intn(30))
+				pr, ty, spi, d := uint8(g.u8()), uint16(g.u16()), arg(g.bytes(g.pick(0, 0, 4, 8))), arg(g.bytes(g.r.Intn(30)))
 				cont.BuildNotification(pr, ty, spi, d)
-				exp.List = append(exp.List, L(A("N"), N(uint64(pr)), N(uint64(ty)), X(spi), X(d)))
+				exp.List = append(exp.List, L(A("N"), N(uint64(pr)), N(uint64(ty)), X(append([]byte{}, spi...)), X(append([]byte{}, d...))))
+				if nd := cont[len(cont)-1].(*message.Notification).NotificationData; len(nd) > 0 {
+					earlier = append(earlier, nd)
+				}
 				what = "BuildNotification"
 			case x < 94:
-				grp, d := uint16(g.u16()), g.bytes(1+g.r.Intn(40))
+				grp, d := uint16(g.u16()), arg(g.bytes(1+g.r.Intn(40)))
 				cont.BUildKeyExchange(grp, d)
-				exp.List = append(exp.List, L(A("KE"), N(uint64(grp)), X(d)))
+				exp.List = append(exp.List, L(A("KE"), N(uint64(grp)), X(append([]byte{}, d...))))
+				earlier = append(earlier, cont[len(cont)-1].(*message.KeyExchange).KeyExchangeData)
 				what = "BUildKeyExchange"
 			case x < 96:
 				ty, d := uint8(g.u8()), g.bytes(1+g.r.Intn(40))
@@ -186,7 +215,7 @@ func (c *Ctx) c19Histories(g *Gen) {
 				what = "BuildCertificate"
 			case x < 99:
 				id := uint8(g.u8())
-				qfis := g.bytes(g.r.Intn(6))
+				qfis := arg(g.bytes(g.r.Intn(6)))
 				isDefault, diff := g.chance(0.5), g.chance(0.5)
 				dscp := uint8(g.u8())
 				if err := cont.BuildNotify5G_QOS_INFO(id, qfis, isDefault, diff, dscp); err == nil {
@@ -205,6 +234,7 @@ func (c *Ctx) c19Histories(g *Gen) {
 					}
 					v[0] = byte(len(v))
 					exp.List = append(exp.List, L(A("N"), N(0), N(55501), X(nil), X(v)))
+					earlier = append(earlier, cont[len(cont)-1].(*message.Notification).NotificationData)
 				}
 				what = "BuildNotify5G_QOS_INFO"
 			default:
